@@ -338,8 +338,18 @@ func (conn *Conn) read(ctx *Context, async bool) {
 		return
 	}
 	call := conn.pending[seq]
-	if call != nil && call.upgrade.Stream != openStream && call.upgrade.Stream != streaming {
-		delete(conn.pending, seq)
+	var openAck bool
+	if call != nil {
+		if call.upgrade.Stream == openStream {
+			// The acknowledgement of a stream open: from here on frames with this
+			// sequence number are stream messages. The phase is switched here,
+			// under the lock, by the reader that consumes the acknowledgement, so
+			// that a message the server pushes right behind it is not mistaken for it.
+			openAck = true
+			call.upgrade.Stream = streaming
+		} else if call.upgrade.Stream != streaming {
+			delete(conn.pending, seq)
+		}
 	}
 	conn.mutex.Unlock()
 	switch {
@@ -379,6 +389,8 @@ func (conn *Conn) read(ctx *Context, async bool) {
 				conn.mutex.Unlock()
 				call.done()
 				putUpgrade(u)
+			} else if openAck {
+				call.done()
 			} else if u.Stream == streaming {
 				if conn.directIO {
 					call.Value = GetBuffer(len(ctx.value))
@@ -394,8 +406,6 @@ func (conn *Conn) read(ctx *Context, async bool) {
 					})
 					return
 				}
-			} else if u.Stream == openStream {
-				call.done()
 			}
 			conn.bufferPool.PutBuffer(ctx.buffer)
 			putContext(ctx)
